@@ -1,0 +1,49 @@
+//go:build verif
+
+// Contracts for package revocation (machine-checked by /verif/govc; comment-only file,
+// compiled only with -tags verif).
+
+package revocation
+
+//@ spec func knownMode(s string) bool = s == "" || s == "prefer_crl" || s == "prefer_ocsp" || s == "ocsp_only" || s == "crl_only" || s == "disabled"
+//@ spec func modeOf(s string) int = ite(s == "prefer_crl", config.RevocationCheckModePreferCRL, ite(s == "ocsp_only", config.RevocationCheckModeOCSPOnly, ite(s == "crl_only", config.RevocationCheckModeCRLOnly, ite(s == "disabled", config.RevocationCheckModeDisabled, config.RevocationCheckModePreferOCSP))))
+//@ spec func ocspEnabled(m int) bool = m == config.RevocationCheckModePreferOCSP || m == config.RevocationCheckModePreferCRL || m == config.RevocationCheckModeOCSPOnly
+//@ spec func crlEnabled(m int) bool = m == config.RevocationCheckModePreferOCSP || m == config.RevocationCheckModePreferCRL || m == config.RevocationCheckModeCRLOnly
+
+//@ func parseMode
+//@   props C03 C19
+//@   requires revocationValidator != nil
+//@   assigns CertRevocationValidator.ModeParsed
+//@   ensures accept: knownMode(old(revocationValidator.Mode)) ==> err == nil
+//@   ensures reject: !knownMode(old(revocationValidator.Mode)) ==> err != nil
+//@   ensures table: err == nil ==> revocationValidator.ModeParsed == modeOf(old(revocationValidator.Mode))
+//@   ensures unset_is_prefer_ocsp: old(revocationValidator.Mode) == "" ==> err == nil && revocationValidator.ModeParsed == config.RevocationCheckModePreferOCSP
+
+//@ func isOCSPCheckingEnabled
+//@   props C03
+//@   requires c != nil
+//@   pure
+//@   ensures ret == ocspEnabled(c.ModeParsed)
+
+//@ func isCRLCheckingEnabled
+//@   props C03
+//@   requires c != nil
+//@   pure
+//@   ensures ret == crlEnabled(c.ModeParsed)
+
+//@ func CertRevocationValidator.VerifyClientCertificate
+//@   props C01 C02 C03
+//@   requires c != nil
+//@   requires chains_nonempty: forall k int :: 0 <= k && k < len(verifiedChains) ==> len(verifiedChains[k]) > 0 && verifiedChains[k][0] != nil
+//@   requires provisioned_ocsp: ocspEnabled(c.ModeParsed) ==> c.ocspRevocationChecker != nil
+//@   requires provisioned_crl: crlEnabled(c.ModeParsed) ==> c.crlRevocationChecker != nil
+//@   assigns ocsp.OCSPRevocationChecker.cache, X.cache2go, X.net, X.crlrepo, X.fs
+//@   ensures[C03] ocsp_only_if_enabled: called(OCSPRevocationChecker.IsRevoked#1) ==> ocspEnabled(old(c.ModeParsed))
+//@   ensures[C03] crl_only_if_enabled: called(CRLRevocationChecker.IsRevoked#1) ==> crlEnabled(old(c.ModeParsed))
+//@   ensures[C03] ocsp_consulted: len(verifiedChains) > 0 && ocspEnabled(old(c.ModeParsed)) ==> called(OCSPRevocationChecker.IsRevoked#1)
+//@   ensures[C03] crl_consulted: len(verifiedChains) > 0 && crlEnabled(old(c.ModeParsed)) && !(called(OCSPRevocationChecker.IsRevoked#1) && (res(OCSPRevocationChecker.IsRevoked#1, 1) != nil || res(OCSPRevocationChecker.IsRevoked#1, 0).Revoked)) ==> called(CRLRevocationChecker.IsRevoked#1)
+//@   ensures[C03] disabled_touches_nothing: old(c.ModeParsed) == config.RevocationCheckModeDisabled ==> ret == nil && !called(OCSPRevocationChecker.IsRevoked#1) && !called(CRLRevocationChecker.IsRevoked#1)
+//@   ensures[C02,C03] ocsp_reject: called(OCSPRevocationChecker.IsRevoked#1) && (res(OCSPRevocationChecker.IsRevoked#1, 1) != nil || res(OCSPRevocationChecker.IsRevoked#1, 0).Revoked) ==> ret != nil
+//@   ensures[C01,C03] crl_reject: called(CRLRevocationChecker.IsRevoked#1) && (res(CRLRevocationChecker.IsRevoked#1, 1) != nil || res(CRLRevocationChecker.IsRevoked#1, 0).Revoked) ==> ret != nil
+//@   ensures[C03] accept_otherwise: !(called(OCSPRevocationChecker.IsRevoked#1) && (res(OCSPRevocationChecker.IsRevoked#1, 1) != nil || res(OCSPRevocationChecker.IsRevoked#1, 0).Revoked)) && !(called(CRLRevocationChecker.IsRevoked#1) && (res(CRLRevocationChecker.IsRevoked#1, 1) != nil || res(CRLRevocationChecker.IsRevoked#1, 0).Revoked)) ==> ret == nil
+//@   ensures[C03] no_chain_accepts: len(verifiedChains) == 0 ==> ret == nil
